@@ -123,7 +123,8 @@ class Leaf:
 # ------------------------------------------------------------------------------------------------
 # operations.  A node knows: C++ expression, NumPy evaluation, run-time argument values, RPN token.
 # Argument kinds: ct (compile-time constant), cl (clipped: run-time value with compile-time maximum),
-# rt (std::array<int,N>: length static, values run time), rtv (std::vector<int>), rts (run-time int), none
+# rt (std::array<int,N>: length static, values run time), rtv (std::vector<int>), sv (nmtools_static_vector<int,N>: length run time,
+# at most the capacity N), rts (run-time int), none
 # ------------------------------------------------------------------------------------------------
 
 class Node:
@@ -158,6 +159,8 @@ class Node:
             t += '.cl.%s.%s' % (fmt(self.ct), fmt(self.clv))
         elif k == 'rt':
             t += '.rt.%d' % self.N
+        elif k == 'sv':
+            t += '.sv.%d' % self.N
         elif k and k != 'pat':
             t += '.' + k
         extra = self.mextra if (model and self.mextra is not None) else self.extra
@@ -175,6 +178,8 @@ def rarg_expr(akind, N, slot):
         return 'c11::to_arr<%d>(R[%d])' % (N, slot)
     if akind == 'rtv':
         return 'c11::to_vec(R[%d])' % slot
+    if akind == 'sv':
+        return 'c11::to_sv<%d>(R[%d])' % (N, slot)
     if akind in ('rts', 'slr'):
         return '(int)R[%d][0]' % slot
     if akind == 'cl':
@@ -556,6 +561,31 @@ def op_outer(k1, k2, v1, v2):
     return [Node('outer_add', [k1, k2], npf=lambda a, _: np.add.outer(a[0], a[1]), cxx=lambda e, _: 'view::outer_add(%s, %s)' % (e[0], e[1]))]
 
 
+# bounded-container arguments (nmtools_static_vector<int,CAP>): the length is a run-time value BELOW or AT the capacity; the
+# bounded_dim / bounded_size of the view must come from the capacity.  Reps / targets are longer than the operand's rank.
+def op_bounded_args(k, v):
+    r = len(v); out = []
+
+    def both(name, cap_lo, cap_at, vals_lo, vals_at, npf, call):
+        # (capacity above the run-time length, capacity equal to it)
+        for tag, cap, vals in (('below', cap_lo, vals_lo), ('at', cap_at, vals_at)):
+            out.append(Node(name, [k], 'sv', N=cap, extra=tag, rfun=lambda s, vals=vals, r=r: vals(s[0]) if len(s[0]) == r else None,
+                            npf=npf, cxx=lambda e, x, call=call: call % (e[0], x)))
+    both('tile', r + 2, r + 1, lambda s: [2] * (len(s) + 1), lambda s: [2] * (len(s) + 1),
+         lambda a, x: np.tile(a[0], x), 'view::tile(%s, %s)')
+    both('tile', r + 3, r + 2, lambda s: [1, 2] + [1] * len(s), lambda s: [1, 2] + [1] * len(s),
+         lambda a, x: np.tile(a[0], x), 'view::tile(%s, %s)')
+    both('reshape', 4, 3, lambda s: [1, prod(s), 1], lambda s: [1, prod(s), 1],
+         lambda a, x: np.reshape(a[0], x), 'view::reshape(%s, %s)')
+    both('broadcast_to', r + 3, r + 2, lambda s: [2, 1] + list(s), lambda s: [2, 1] + list(s),
+         lambda a, x: np.broadcast_to(a[0], x), 'view::broadcast_to(%s, %s)')
+    both('transpose', r + 1, r, lambda s: _perm(len(s)), lambda s: _perm(len(s)),
+         lambda a, x: np.transpose(a[0], x), 'view::transpose(%s, %s)')
+    both('pad', 2 * r + 1, 2 * r, lambda s: [1] + [0] * (2 * len(s) - 2) + [2], lambda s: [1] + [0] * (2 * len(s) - 2) + [2],
+         lambda a, x: np.pad(a[0], list(zip(x[:len(x) // 2], x[len(x) // 2:]))), 'view::pad(%s, %s)')
+    return out
+
+
 GEN_UNARY = [op_tril, op_pool2d, op_resize, op_sliding_window, op_compress]
 GEN_NULLARY = [op_eye, op_tri]
 GEN_BINARY = [op_outer]
@@ -591,6 +621,7 @@ class Program:
         self.nodes = []        # post order
         self._walk(root)
         self.id = None
+        self.group = ''         # '' = first group of TUs, 'x' = second group
         self.depth = self._depth(root)
 
     def _walk(self, n):
@@ -838,6 +869,25 @@ def build_programs(tier):
             seen.add(p.text()); progs.append(p); cnt -= 1
     skip = load_skip()
     progs = [p for p in progs if p.text() not in skip]
+    # second group of translation units (own TUs, so that the first group stays cached): bounded-container arguments, and outer
+    # products whose size is a compile-time constant although the shape is not (fixed buffers of run-time shape)
+    extra = []
+
+    def addx(n):
+        if valid(n):
+            p = Program(n); p.group = 'x'
+            if p.text() not in skip and p.text() not in seen:
+                seen.add(p.text()); extra.append(p)
+    for kind in (('cs', 'cl', 'fd', 'bd', 'dy') if tier == 'quick' else kinds):
+        for n in unary_variants([op_bounded_args], Leaf(kind, (2, 3))):
+            addx(n)
+        if tier != 'quick':
+            for n in unary_variants([op_bounded_args], Leaf(kind, (3,))):
+                addx(n)
+    for k1, k2 in (('fdf', 'fdf'), ('fdf', 'cs'), ('fdh', 'fdf'), ('fdf', 'fdh'), ('fdf', 'dy'), ('cs', 'fdf')):
+        for n in binary_variants([op_outer], Leaf(k1, (2, 3)), Leaf(k2, (2,))):
+            addx(n)
+    progs += extra
     for i, p in enumerate(progs):
         p.id = i
     return progs
@@ -864,6 +914,15 @@ def tu_name(tier, k):
 def write_tus(progs, tier, outdir):
     """returns list of (harness name, source path, [program ids])"""
     os.makedirs(outdir, exist_ok=True)
+    res = []
+    for group in ('', 'x'):
+        res += _write_group([p for p in progs if p.group == group], tier, outdir, group)
+    return res
+
+
+def _write_group(progs, tier, outdir, group):
+    if not progs:
+        return []
     per = PER_TU[tier]
     # heavier (deeper) programs are spread evenly: round-robin after sorting by depth
     order = sorted(progs, key=lambda p: (p.depth, p.id))
@@ -894,11 +953,12 @@ def write_tus(progs, tier, outdir):
         src.append('    }')
         src.append('}')
         text = '\n'.join(src) + '\n'
-        path = os.path.join(outdir, tu_name(tier, k) + '.cpp')
+        name = tu_name(tier, k) if not group else 'g_c11_%s_%s%03d' % (tier, group, k)
+        path = os.path.join(outdir, name + '.cpp')
         if not (os.path.exists(path) and open(path).read() == text):
             with open(path, 'w') as f:
                 f.write(text)
-        res.append((tu_name(tier, k), path, [p.id for p in b]))
+        res.append((name, path, [p.id for p in b]))
     return res
 
 
